@@ -294,6 +294,12 @@ func replayMain(t *testing.T) {
 	if *flagTapes > 0 {
 		seen := map[string]int{}
 		first := map[string]int{}
+		outcomes := map[string]int{}
+		defer func() {
+			if len(outcomes) > 0 {
+				fmt.Printf("outcomes=%v\n", outcomes)
+			}
+		}()
 		for i := 0; i < *flagTapes; i++ {
 			b2, _ := json.Marshal(rf.Program)
 			var p2 Program
@@ -301,6 +307,25 @@ func replayMain(t *testing.T) {
 			p2.Cfg.Policy = i % 3
 			p2.Seed = int64(i + 1)
 			r := RunOne(t, &p2, NewSearchTape(int64(i)*7919+1), false)
+			if os.Getenv("SIM_TAPES_OUTCOMES") != "" {
+				for _, l := range r.histText() {
+					if strings.Contains(l, " c0 invoke") || (strings.Contains(l, " c0 recv") && strings.Contains(l, "-> status")) {
+						if k := strings.Index(l, "->"); k >= 0 {
+							outcomes[l[k:]]++
+							if want := os.Getenv("SIM_TAPES_SHOW"); want != "" && strings.Contains(l[k:], want) && outcomes[l[k:]] <= 2 {
+								fmt.Printf("--- tape %d\n%s\n", i, strings.Join(r.histText(), "\n"))
+								for _, ev := range r.Hist {
+									if ev.Op == "invoke" {
+										b, _ := json.Marshal(ev)
+										fmt.Printf("%s\n", b)
+									}
+								}
+								fmt.Printf("viols=%v\n", r.Viols)
+							}
+						}
+					}
+				}
+			}
 			for _, v := range r.Viols {
 				if seen[v.Sig] == 0 {
 					first[v.Sig] = i
